@@ -670,3 +670,91 @@ def rule_weight_preserve(ctx: Ctx) -> None:
                 ctx.fail("weight.preserve", sm, st, f"MixedStabilizer.{name} stores `{norm(st.value.elts[0])}` as the branch probability", func=f"MixedStabilizer.{name}")
     if n < 10:
         raise AnalysisError("weight.preserve: too few sites analysed")
+
+
+
+# --------------------------------------------------------------------------- consumed tableau
+
+
+def _applies_gates_to_param(repo: Repo, cg: CallGraph) -> Dict[FuncKey, Set[int]]:
+    """function -> parameter indices on which it applies a *state-changing* gate in place (transform.* on the parameter,
+    also after `p = g(p)` re-bindings, which return the same object in this code base), to a fixpoint over exact calls."""
+    TR = "graphiq/backends/stabilizer/functions/transformation.py"
+    gate_fns = {k for k in cg.funcs if k[0] == TR and k[1] not in ("identity",)}
+    summ: Dict[FuncKey, Set[int]] = {k: set() for k in cg.funcs}
+    for k in gate_fns:
+        summ[k].add(0)
+    changed = True
+    while changed:
+        changed = False
+        for k, fn in cg.funcs.items():
+            if k in gate_fns:
+                continue
+            ps = func_params(fn)
+            m = cg.mod_of[k]
+            for c in calls_in(fn, nested=False):
+                ks, kind = cg.resolve(m, c)
+                if kind != "exact":
+                    continue
+                for callee in ks:
+                    cps = func_params(cg.funcs[callee])
+                    off = 1 if cps and cps[0] in ("self", "cls") and isinstance(c.func, ast.Attribute) else 0
+                    for i, a in enumerate(c.args):
+                        if isinstance(a, ast.Name) and a.id in ps and a.id not in ("self", "cls") and (i + off) in summ[callee]:
+                            j = ps.index(a.id)
+                            if j not in summ[k]:
+                                summ[k].add(j)
+                                changed = True
+    return summ
+
+
+def rule_consumed_tableau(ctx: Ctx, rels: List[str]) -> None:
+    """effect.consumed-tableau: a function that applies gates to its tableau argument in place *and returns the transformed
+    tableau* (inverse_circuit) is called with a live object while the returned tableau is discarded (`_, gates = f(t)`):
+    the caller keeps using `t` (or hands it back to its own caller) although it has been reduced to another state."""
+    repo = ctx.repo
+    cg = CallGraph(repo)
+    summ = _applies_gates_to_param(repo, cg)
+    n = 0
+    for rel in rels:
+        m = repo.module(rel)
+        for fn in m.functions():
+            ps = [p for p in func_params(fn) if p not in ("self", "cls")]
+            for st in ast.walk(fn):
+                if not (isinstance(st, ast.Assign) and isinstance(st.value, ast.Call) and isinstance(st.targets[0], ast.Tuple)):
+                    continue
+                c = st.value
+                ks, kind = cg.resolve(m, c)
+                if kind != "exact":
+                    continue
+                for callee in ks:
+                    idxs = summ.get(callee, set())
+                    cps = func_params(cg.funcs[callee])
+                    off = 1 if cps and cps[0] in ("self", "cls") and isinstance(c.func, ast.Attribute) else 0
+                    for i, a in enumerate(c.args):
+                        if (i + off) not in idxs:
+                            continue
+                        n += 1
+                        ctx.touch(m, fn)
+                        first = st.targets[0].elts[0]
+                        discarded = isinstance(first, ast.Name) and (first.id == "_" or not any(
+                            isinstance(x, ast.Name) and x.id == first.id and isinstance(x.ctx, ast.Load) for x in ast.walk(fn)))
+                        rebinding = isinstance(first, ast.Name) and isinstance(a, ast.Name) and first.id == a.id
+                        fresh = isinstance(a, ast.Call) and call_attr(a) in ("copy", "deepcopy", "to_stabilizer")
+                        if fresh or rebinding or not discarded or not isinstance(a, ast.Name):
+                            ctx.ok("effect.consumed-tableau", m, st, what=f"{qualname(fn)}: {call_attr(c)} on a copy / re-bound result")
+                            continue
+                        later = [x for x in ast.walk(fn) if isinstance(x, ast.Name) and x.id == a.id and isinstance(x.ctx, ast.Load)
+                                 and getattr(x, "lineno", 0) > st.lineno]
+                        is_param = a.id in ps
+                        if later or is_param:
+                            ctx.fail("effect.consumed-tableau", m, st,
+                                     f"`{short(st)}`: {call_attr(c)} applies its gates to `{a.id}` in place (it reduces the tableau towards |0..0>) "
+                                     f"and the transformed tableau it returns is discarded, but `{a.id}` is " +
+                                     ("the caller's own object (an argument of this function)" if is_param else "used again afterwards") +
+                                     ": it no longer holds the state the caller thinks it holds — pass a copy",
+                                     func=qualname(fn), construct=f"{qualname(fn)}: {call_attr(c)}({a.id}) result discarded")
+                        else:
+                            ctx.ok("effect.consumed-tableau", m, st)
+    if n == 0:
+        raise AnalysisError("effect.consumed-tableau: no call of a gate-applying function with tuple result found")
